@@ -50,14 +50,18 @@ func runC09(r *R) {
 				}
 				written := CallArgs(c.Common())[0]
 				sizeOK, lenOK := false, false
-				switch root {
-				case "(*" + arv + ".filenode).pruneMemSegments":
-					sizeOK = isLenOf(cf["size"], func(x ssa.Value) bool { return SameCanon(x, written) })
-					lenOK = isLenOf(cf["length"], func(x ssa.Value) bool { return SameCanon(x, written) })
-				case "(*" + arv + ".dirnode).commitBlock":
-					sizeOK = cf["size"] != nil && isLenOfCapturedCell(cf["size"], written)
-					lenOK = cf["length"] != nil && isLenOf(cf["length"], func(x ssa.Value) bool { return bufLoadAfter(x, []ssa.CallInstruction{c}) })
+				// one whole buffer written (pruneMemSegments form): size and length are both len(the buffer handed to PutB)
+				aSize := isLenOf(cf["size"], func(x ssa.Value) bool { return SameCanon(x, written) })
+				aLen := isLenOf(cf["length"], func(x ssa.Value) bool { return SameCanon(x, written) })
+				// several segments packed into one block (commitBlock form): size is len(block) taken by the spawner, length
+				// is the segment's buffer length re-read at swap time
+				bSize := cf["size"] != nil && isLenOfCapturedCell(cf["size"], written)
+				bLen := cf["length"] != nil && isLenOf(cf["length"], func(x ssa.Value) bool { return bufLoadAfter(x, []ssa.CallInstruction{c}) })
+				sizeOK, lenOK = aSize || bSize, aLen || bLen
+				if !(aSize && aLen) && !(bSize && bLen) {
+					sizeOK, lenOK = sizeOK && (aSize && aLen || bSize && bLen), lenOK && (aSize && aLen || bSize && bLen)
 				}
+				_ = root
 				r.Check(g && sizeOK && lenOK, "C09-R1", fn, "storedSegment{locator: PutB(...)}", st.Pos(), "PutB err nil; size=len(block written); length=segment's current length",
 					"stored segment does not describe what was written (err="+boolS(g)+" size="+boolS(sizeOK)+" length="+boolS(lenOK)+")")
 			case isCallResult(v, "LocalLocator", 0):
@@ -127,13 +131,13 @@ func runC09(r *R) {
 	r.Rule("C09-R2", "a memory segment is replaced by a stored one only when that block's PutB returned nil", 2)
 	for _, name := range []string{"(*" + arv + ".filenode).pruneMemSegments", "(*" + arv + ".dirnode).commitBlock"} {
 		if outer := r.NeedFn("C09-R2", name); outer != nil {
-			for _, cl := range Closures(outer) {
+			for _, cl := range ClosuresAndGoBodies(outer) {
 				for _, st := range segElemStores(cl) {
 					put := CallsMatching(cl, func(nm string, c *ssa.CallCommon) bool { return bareName(nm) == "PutB" })
 					ok := len(put) == 1
 					if ok {
 						g, _ := Guard(cl, put[0].(ssa.Instruction), st, ErrNilC(put[0]))
-						ok = g && put[0].Block().Dominates(st.Block())
+						ok = g && Precedes(put[0], st)
 					}
 					r.Check(ok, "C09-R2", cl, "segments[idx] = storedSegment", st.Pos(), "guarded by PutB err==nil", "buffered data is dropped in favour of a stored segment although the write failed")
 				}
@@ -144,7 +148,7 @@ func runC09(r *R) {
 	// ---- R3
 	r.Rule("C09-R3", "save error chain: PutB err → errs → commitBlock → contextGroup → flush → marshalManifest → MarshalManifest → Sync", 7)
 	if outer := r.NeedFn("C09-R3", "(*"+arv+".dirnode).commitBlock"); outer != nil {
-		for _, cl := range Closures(outer) {
+		for _, cl := range ClosuresAndGoBodies(outer) {
 			put := CallsMatching(cl, func(nm string, c *ssa.CallCommon) bool { return bareName(nm) == "PutB" })
 			if len(put) != 1 {
 				continue
@@ -235,7 +239,7 @@ func runC09(r *R) {
 		ok := len(mm) == 1 && len(upd) == 1
 		if ok {
 			g, _ := Guard(fn, mm[0].(ssa.Instruction), upd[0].(ssa.Instruction), ErrNilC(mm[0]))
-			ok = g && mm[0].Block().Dominates(upd[0].Block())
+			ok = g && Precedes(mm[0], upd[0])
 		}
 		r.Check(ok, "C09-R3", fn, "update only after MarshalManifest err==nil", fn.Pos(), "a failed save never updates the collection record", "Sync can send a manifest although marshalling (i.e. storing blocks) failed")
 		for _, ret := range Returns(fn) {
@@ -287,7 +291,7 @@ func runC09(r *R) {
 	}
 	if outer := r.NeedFn("C09-R4", "(*"+arv+".dirnode).marshalManifest"); outer != nil {
 		found := false
-		for _, cl := range Closures(outer) {
+		for _, cl := range ClosuresAndHelpers(outer) {
 			fl := CallsIn(cl, "(*"+arv+".dirnode).flush")
 			if len(fl) != 1 {
 				continue
@@ -305,7 +309,7 @@ func runC09(r *R) {
 				}
 				n++
 				g, _ := Guard(cl, fl[0].(ssa.Instruction), in, ErrNilC(fl[0]))
-				r.Check(g && fl[0].Block().Dominates(in.Block()), "C09-R4", cl, "read node.segments", in.Pos(), "after flush returned nil", "file segments are read for the manifest although flush failed or had not run")
+				r.Check(g && Precedes(fl[0], in), "C09-R4", cl, "read node.segments", in.Pos(), "after flush returned nil", "file segments are read for the manifest although flush failed or had not run")
 			})
 			if n == 0 {
 				r.Bad("C09-R4", cl, "read node.segments", cl.Pos(), "no segment read found")
